@@ -242,3 +242,72 @@ Theorem C16_settings_file_absolute : forall env document toks p f,
   end.
 Proof. exact settings_file_absolute. Qed.
 Print Assumptions C16_settings_file_absolute.
+
+(* Proofs/WholeProgram.v: the generated main() with the generated document() plugged in equals the pure model; the value resolve finds in the highest-priority source is the one every layer below is run with *)
+From Coq Require NArith Bool Arith.
+From CMinx Require Base.Str Base.PySem Model.Writer Model.Path Model.Naming Model.DocTypes
+     Model.Aggregator Model.Pipeline Model.Walk Model.Config Gen.ConfigData
+     Base.PyMainSem Base.PyWalkSem Gen.PyMainSource Gen.PyWalkSource
+     Proofs.WalkFacts Proofs.RunFacts Proofs.ConfigFacts Proofs.MainSourceMatch
+     Proofs.WalkSourceMatch Proofs.WholeProgram.
+Section WholeProgramCitations.
+Import NArith Bool Arith.
+Import Base.Str Base.PySem Model.Writer Model.Path Model.Naming Model.DocTypes
+     Model.Aggregator Model.Pipeline Model.Walk Model.Config Gen.ConfigData
+     Base.PyMainSem Base.PyWalkSem Gen.PyMainSource Gen.PyWalkSource
+     Proofs.WalkFacts Proofs.RunFacts Proofs.ConfigFacts Proofs.MainSourceMatch
+     Proofs.WalkSourceMatch Proofs.WholeProgram.
+
+Theorem C16_whole_program_matches_source : forall resub pathspec_match world_of env toks,
+  worlds_ok env toks world_of = true ->
+  py_run (main env (source_document resub pathspec_match world_of) toks)
+  = model_main env (model_document resub pathspec_match world_of) toks.
+Proof. exact WholeProgram.whole_program_matches_source. Qed.
+
+Theorem C16_settings_reach_every_layer : forall resub pathspec_match world_of env toks p stack obj,
+  parse_args cli_table toks = Some p -> consulted env p = Some stack ->
+  main_settings env p = Some obj -> worlds_ok env toks world_of = true ->
+  py_run (main env (source_document resub pathspec_match world_of) toks)
+  = finish (run_inputs (map (fun input =>
+      Walk.document (wsettings_of obj) (headers_of obj)
+        (document_bytes (flags_of obj) (trigger_of obj)
+                        (resub (opt_text obj k_strip_fn)) (resub (opt_text obj k_strip_mac))
+                        (resub (opt_text obj k_strip_mem)) (headers_of obj))
+        (excl_with_output (pathspec_match (patterns_of obj) input) (pw_out_in_input (world_of input)))
+        (pw_base (world_of input)) (pw_kind (world_of input))) (p_positional p)))
+  /\ ws_prefix (wsettings_of obj) = found_opt_str (resolve stack k_prefix)
+  /\ ws_recursive (wsettings_of obj) = found_bool (resolve stack k_recursive)
+  /\ is_found_bool (resolve stack k_recursive) = true
+  /\ inc_function (flags_of obj) = found_bool (resolve stack k_inc_function)
+  /\ is_found_bool (resolve stack k_inc_function) = true
+  /\ headers_of obj = found_strs (resolve stack k_headers)
+  /\ exclude_strs stack = Some (patterns_of obj).
+Proof. exact WholeProgram.settings_reach_every_layer. Qed.
+
+Theorem C16_every_flag_reaches_its_layer : forall env p stack obj,
+  consulted env p = Some stack -> main_settings env p = Some obj ->
+  let r := fun k => found_bool (resolve stack k) in
+  flags_of obj
+  = {| inc_function := r k_inc_function; inc_macro := r k_inc_macro; inc_cpp_class := r k_inc_cpp_class;
+       inc_cpp_attr := r k_inc_cpp_attr; inc_cpp_constructor := r k_inc_cpp_constructor;
+       inc_cpp_member := r k_inc_cpp_member; inc_ct_add_test := r k_inc_ct_add_test;
+       inc_ct_add_section := r k_inc_ct_add_section; inc_add_test := r k_inc_add_test;
+       inc_option := r k_inc_option |}
+  /\ ws_recursive (wsettings_of obj) = r k_recursive
+  /\ ws_auto_exclude (wsettings_of obj) = r k_auto_exclude
+  /\ ws_ext_titles (wsettings_of obj) = r k_ext_titles
+  /\ ws_ext_modules (wsettings_of obj) = r k_ext_modules
+  /\ follow_of obj = r k_follow.
+Proof. exact WholeProgram.every_flag_reaches_its_layer. Qed.
+
+Theorem C16_rejected_configuration_runs_nothing : forall env document toks,
+  main_settings_of env toks = None ->
+  py_run (main env document toks) = Raised (main_error env toks) []
+  /\ In (main_error env toks) [ExcArgparseExit; ExcConfigRead; ExcConfig; config_type_error].
+Proof. exact WholeProgram.rejected_configuration_runs_nothing. Qed.
+
+End WholeProgramCitations.
+Print Assumptions C16_whole_program_matches_source.
+Print Assumptions C16_settings_reach_every_layer.
+Print Assumptions C16_every_flag_reaches_its_layer.
+Print Assumptions C16_rejected_configuration_runs_nothing.
